@@ -20,7 +20,7 @@ THEOREMS = [
     'Nb.C10.dec_enc', 'Nb.C10.enc_dec', 'Nb.C10.dec_swap_reverse',
     'Nb.C10.bytes_roundtrip', 'Nb.C10.fields_roundtrip', 'Nb.C10.parse_swapped',
     'Nb.C10.swapFields_involutive', 'Nb.C10.binaryblock_ofBytes',
-    'Nb.C10.asByteswapped_vals', 'Nb.C10.asByteswapped_twice', 'Nb.C10.eq_swapped',
+    'Nb.C10.asByteswapped_vals', 'Nb.C10.asByteswappedTo_faithful', 'Nb.C10.endian_aliases_consistent', 'Nb.C10.asByteswapped_twice', 'Nb.C10.eq_swapped',
     'Nb.C10.hdrEq_iff_vals', 'Nb.C10.copy_eq', 'Nb.C10.copy_independent',
     'Nb.C10.endian_guess_correct', 'Nb.C10.endian_guess_correct_generated',
     'Nb.C10.ecat_guess_correct', 'Nb.C10.ecat_guess_correct_generated',
@@ -127,7 +127,7 @@ CHECK_IDS = {
 
 
 def _lean_str(s):
-    assert re.fullmatch(r'[A-Za-z0-9_+\- .]*', s), s
+    assert re.fullmatch(r'[A-Za-z0-9_+\- .<>=|!]*', s), s
     return '"' + s + '"'
 
 
@@ -255,13 +255,25 @@ def regen():
                      f'pixFmt := {pixfmt}, voxKind := {voxkind},\n  singleMagic := {sm}, pairMagic := {pm}, '
                      f'singleVoxOffset := {svo}, singleVoxPattern := {voxpat},\n  xformCodes := {xf}, guess := {guess}, '
                      f'swappable := {"false" if name == "mgh" else "true"} }}\n')
+    ec = m['volumeutils'].endian_codes
+    rows = []
+    for k in ec.keys():
+        if not isinstance(k, str) or ' ' in k:
+            raise ValueError(f'endian_codes key {k!r} not representable in the line protocol')
+        v = ec[k]
+        if v not in ('<', '>'):
+            raise ValueError(f'endian_codes[{k!r}] = {v!r}')
+        rows.append(f'({_lean_str(k)}, {".le" if v == "<" else ".be"})')
+    out.append('/-- `endian_codes`: every accepted spelling and the byte order it resolves to on this machine -/')
+    out.append('def endianAliases : List (String × Endian) := [' + ', '.join(rows) + ']\n')
+    out.append(f'def nativeCode : Endian := {".le" if m["volumeutils"].native_code == "<" else ".be"}\n')
     out.extend(specs)
     out.append('def classes : List ClsSpec := [' + ', '.join(n + 'Cls' for n in K) + ']\n')
     out.append('def classOf? (name : String) : Option ClsSpec := classes.find? (·.name == name)\n')
     out.append('end Nb.C10.Gen\n')
     write_if_changed(os.path.join(LEAN, 'NibabelModel', 'Generated', 'C10Codes.lean'), '\n'.join(out))
     return ['Gen.layouts wf (tiling, %d layouts)' % len(lay), 'Gen.declared sizes', 'Gen.layouts names distinct',
-            'Gen dt code tables consistent', 'Gen.classes consistent (guess spec, offsets constants)']
+            'Gen dt code tables consistent', 'Gen.endianAliases consistent', 'Gen.classes consistent (guess spec, offsets constants)']
 
 
 # ------------------------------------------------------------------ helpers shared by impl / oracle
